@@ -25,6 +25,14 @@ func run(prop string) {
 		runC12()
 	case "C13":
 		runC13()
+	case "C15":
+		runC15()
+	case "C11":
+		runC11()
+	case "C14":
+		runC14()
+	case "C06":
+		runC06()
 	default:
 		panic("W-mesh does not decide " + prop)
 	}
